@@ -10,6 +10,9 @@ for pid in ALL:
     except ModuleNotFoundError:
         na.append(dict(property_id=pid, reason="not yet claimed: the Lean model, theorems and correspondence for this property are still being built (see DESIGN.md section 6); no other technique is substituted"))
         continue
+    if not getattr(m, "CLAIMED", True):
+        na.append(dict(property_id=pid, reason="not yet claimed: model and correspondence exist but the property theorems are still being proved; no other technique is substituted"))
+        continue
     checks.append(dict(
         property_id=pid,
         quick_cmd=f"./check {pid} --tier quick",
